@@ -1431,7 +1431,7 @@ func checkWaitForGraph(c *Ctx, runs []*runInfo) {
 // ErrNotRunning (possibly wrapped) exactly on the path where the actor's
 // stopping channel fired, and nil where the request was accepted.
 func checkNotRunningErrors(c *Ctx) {
-	rule := "T-SHAPE(ErrNotRunning)"
+	rule := "T-SHAPE(request-api)"
 	n := 0
 	for _, f := range c.P.SrcFuncs("") {
 		if f.Parent() != nil || f.Signature.Recv() == nil {
@@ -1481,6 +1481,34 @@ func checkNotRunningErrors(c *Ctx) {
 			}
 			last := pa.End.Results[len(pa.End.Results)-1]
 			isNotRunning := termContains(last, func(x *Term) bool { return (x.K == "load" || x.K == "global") && strings.Contains(x.Key(), "ErrNotRunning") })
+			if arm == "" {
+				ok, detail = false, "a path returns without going through the request select (a fast path that bypasses the actor: the request is never applied)"
+			}
+			if arm == "sent" {
+				// the request carries every argument of the call, and what is returned is what the loop replied
+				var sent, reply *Term
+				for _, e := range pa.Effects {
+					if e.Kind == "select" && e.Blocking && e.Arm >= 0 && e.Sel[e.Arm].Send != nil {
+						sent = e.Sel[e.Arm].Send
+					}
+				}
+				walkTerm(sent, func(x *Term) {
+					if x.K == "makechan" {
+						reply = x
+					}
+				})
+				for _, prm := range f.Params[1:] {
+					if !termContains(sent, func(x *Term) bool { return x.K == "param" && x.S == prm.Name() }) {
+						ok, detail = false, "the request sent to the loop does not carry the argument "+prm.Name()
+					}
+				}
+				if len(pa.End.Results) == 2 {
+					r0 := pa.End.Results[0]
+					if !(reply != nil && r0.K == "recv" && sameTerm(r0.A[0], reply)) {
+						ok, detail = false, "the value returned is not the loop's reply to this request"
+					}
+				}
+			}
 			switch arm {
 			case "stopping":
 				sawStop = true
@@ -1497,7 +1525,7 @@ func checkNotRunningErrors(c *Ctx) {
 		if !sawStop || !sawSent {
 			ok, detail = false, "request select without both a send arm and a ShuttingDown() arm"
 		}
-		c.check(ok, rule, fnName(f)+"/stopping→ErrNotRunning", c.P.fnPos(f), "", fnName(f)+": "+detail+" (a caller racing with shutdown must get ErrNotRunning or a result, never block or a misleading success)")
+		c.check(ok, rule, fnName(f)+"/request-select-and-reply", c.P.fnPos(f), "", fnName(f)+": "+detail+" (a caller racing with shutdown must get ErrNotRunning or a result, never block or a misleading success)")
 	}
 	c.floor(rule, 9, "cache x5 (sync, update, refilter, List, Get), publisher.Subscribe, filterSubscription.Refilter, _watcher.reset, _subscription.send")
 	_ = n
